@@ -81,8 +81,8 @@ func TestTqvWitness(t *testing.T) {
 	}
 	violated := has(forged.args, "priv-lvl=15") || !has(forged.args, "priv-lvl=1")
 	out := map[string]interface{}{
-		"obligation": "cmds/server/config/authorizers/stringy.SessionBasedAuthorizer.evaluate/inv1.init#2",
-		"scenario":   "connection localized to lab-scope; client sends [service=shell cmd= scope=lab-scope scope*prod-scope]",
+		"obligation":  "cmds/server/config/authorizers/stringy.SessionBasedAuthorizer.evaluate/inv1.init#2",
+		"scenario":    "connection localized to lab-scope; client sends [service=shell cmd= scope=lab-scope scope*prod-scope]",
 		"plain_reply": fmt.Sprint(plain.status, plain.args), "forged_reply": fmt.Sprint(forged.status, forged.args),
 		"expected": "the lab-scope values [priv-lvl=1] only", "violated": violated,
 	}
